@@ -199,7 +199,9 @@ var xmlEsc = strings.NewReplacer("&", "&amp;", "<", "&lt;", ">", "&gt;", `"`, "&
 
 type xgen struct {
 	r      *vh.Rng
-	nsMode int // 0 none, 1 prefix p declared on the root, 2 default namespace on the root
+	nsMode int // 0 none, 1 prefix declared on the root, 2 default namespace on the root,
+	// 3 prefix declared on the root and re-bound (same URI, other prefix) on inner elements
+	pfx string // the prefix bound to urn:p in the current scope (modes 1 and 3)
 	names  []string
 	budget int
 }
@@ -211,18 +213,31 @@ func (g *xgen) text() string {
 func (g *xgen) elem(depth, maxDepth int, top bool) *XN {
 	r := g.r
 	n := &XN{Local: g.names[r.Pick(len(g.names))]}
+	outer := g.pfx
+	defer func() { g.pfx = outer }()
 	switch g.nsMode {
 	case 1:
 		if r.Chance(0.4) {
-			n.Prefix, n.URI = "p", "urn:p"
+			n.Prefix, n.URI = g.pfx, "urn:p"
 		}
 	case 2:
 		n.Prefix, n.URI = "", "urn:d"
+	case 3:
+		if !top && r.Chance(0.3) {
+			// a declaration on an inner element: the same URI under another prefix (or the same one
+			// again), in scope for this element and what is inside it
+			np := r.PickStr("p", "i", "q", "inv")
+			n.Attrs = append(n.Attrs, XA{Local: np, Prefix: "xmlns", URI: "", Value: "urn:p", rawName: "xmlns:" + np})
+			g.pfx = np
+			n.Prefix, n.URI = np, "urn:p"
+		} else if r.Chance(0.7) {
+			n.Prefix, n.URI = g.pfx, "urn:p"
+		}
 	}
 	if top {
 		switch g.nsMode {
-		case 1:
-			n.Attrs = append(n.Attrs, XA{Local: "p", Prefix: "xmlns", URI: "", Value: "urn:p", rawName: "xmlns:p"})
+		case 1, 3:
+			n.Attrs = append(n.Attrs, XA{Local: g.pfx, Prefix: "xmlns", URI: "", Value: "urn:p", rawName: "xmlns:" + g.pfx})
 		case 2:
 			n.Attrs = append(n.Attrs, XA{Local: "xmlns", Value: "urn:d", rawName: "xmlns"})
 		}
@@ -231,7 +246,7 @@ func (g *xgen) elem(depth, maxDepth int, top bool) *XN {
 		an := r.PickStr("id", "k", "id", "t")
 		dup := false
 		for _, a := range n.Attrs {
-			if a.rawName == an || a.rawName == "p:"+an {
+			if a.rawName == an || strings.HasSuffix(a.rawName, ":"+an) {
 				dup = true
 			}
 		}
@@ -239,8 +254,8 @@ func (g *xgen) elem(depth, maxDepth int, top bool) *XN {
 			continue
 		}
 		a := XA{Local: an, Value: g.text(), rawName: an}
-		if g.nsMode == 1 && r.Chance(0.2) {
-			a.Prefix, a.URI, a.rawName = "p", "urn:p", "p:"+an
+		if (g.nsMode == 1 || g.nsMode == 3) && r.Chance(0.2) {
+			a.Prefix, a.URI, a.rawName = g.pfx, "urn:p", g.pfx+":"+an
 		}
 		n.Attrs = append(n.Attrs, a)
 	}
@@ -282,13 +297,21 @@ func (g *xgen) elem(depth, maxDepth int, top bool) *XN {
 }
 
 func GenXMLDoc(r *vh.Rng) []*XN {
-	g := &xgen{r: r, budget: r.Between(3, 40)}
 	switch r.Pick(10) {
 	case 0, 1:
-		g.nsMode = 1
+		return GenXMLDocNS(r, 1, "p")
 	case 2:
-		g.nsMode = 2
+		return GenXMLDocNS(r, 2, "")
+	case 3, 4:
+		return GenXMLDocNS(r, 3, r.PickStr("p", "inv"))
 	}
+	return GenXMLDocNS(r, 0, "")
+}
+
+// GenXMLDocNS generates a document in the given namespace mode (see xgen.nsMode); pfx is the prefix
+// the root binds to urn:p in modes 1 and 3.
+func GenXMLDocNS(r *vh.Rng, mode int, pfx string) []*XN {
+	g := &xgen{r: r, budget: r.Between(3, 40), nsMode: mode, pfx: pfx}
 	// few names: repeated and nested candidates are the point
 	pool := []string{"n", "x", "r", "a", "b", "n", "x"}
 	k := r.Between(2, 5)
@@ -457,4 +480,33 @@ func xmlFacts(n *XN) []*PExp {
 		fs = append(fs, &PExp{Op: "selfeq", V: it})
 	}
 	return fs
+}
+
+// Rebinds tells whether a namespace declaration stands on an element other than the top one: the
+// prefix the reader stores for a node is then decided by its (document-global, last-wins) map and
+// may differ from the prefix written in the text.
+func Rebinds(content []*XN) bool {
+	var inner func(n *XN, top bool) bool
+	inner = func(n *XN, top bool) bool {
+		if n.IsText {
+			return false
+		}
+		for _, a := range n.Attrs {
+			if !top && (a.Prefix == "xmlns" || a.rawName == "xmlns") {
+				return true
+			}
+		}
+		for _, k := range n.Kids {
+			if inner(k, false) {
+				return true
+			}
+		}
+		return false
+	}
+	for _, n := range content {
+		if inner(n, true) {
+			return true
+		}
+	}
+	return false
 }
